@@ -19,6 +19,8 @@ from vlib import rnd_u64, xhex, U64
 THEOREMS = ["C16_ippt", "C16_ippt_raw_flags", "C16_result_shape", "C16_result_shape_generic", "C16_unsupported_variant_panics",
             "C16_results_ignored", "C16_resign_replaces", "C16_resign_pipeline",
             "C16_asb_layout", "C16_bib_pipeline", "C16_bib_block", "C16_ippt_injective", "C16_ippt_injective_target"]
+REPEAT = 2            # case lines repeated 66 000 times on one thread (state that builds up over many calls)
+REPEAT_CMDS = ('IPPT',)
 XCHECK = 120
 RELEASE = True          # debug and release builds of the harness (debug_assert!, overflow checks, cfg(debug_assertions))
 RULE = ("IPPT: target blocks of every carried type (payload, bundle age, hop count, previous node, unknown types incl. 11/12/192/2^64-1) x all 8 "
